@@ -11,10 +11,19 @@ use crate::refasm::*;
 /// registers and hex literals.
 pub const NAME_POOL: &[&str] = &[
     "loop", "r8", "result", "x_1", "xylophone", "adder", "halts", "BRx", "Foo", "foo", "_", "a1",
-    "R00", "data", "X_", "ldx", "in_", "out1", "trap_", "putss", "z9", "L0", "L1", "L2", "msg",
+    // (names 7 places apart mark consecutive labels of a program: the long names come in pairs
+    // that share a prefix of exactly 32, 64, 255 and 16 characters)
+    "R00", "a_label_name_of_thirty_two_chars_head", "X_", "ldx", "in_", "out1", "trap_", "putss", "a_label_name_of_thirty_two_chars_tail", "L0", "L1", "L2", "msg",
     "Main", "MAIN", "end_", "brnzpx", "r10", "xg", "b2", "o", "regs", "stack_", "retss", "popp",
-    "addd", "jsrrr", "x", "Y", "halt_", "LOOP", "Loop", "_1", "__", "q", "w_w", "hw", "n", "fib",
-    "ptr", "buf", "2", "40", "sub1", "sub2", "done", "007", "255", "1024", "R7_SAVE", "r0_", "r3_x",
+    "addd", "jsrrr", "x", "Y", "halt_", "LOOP", "Loop", "_1", "__", "xpush", "Xpop",
+    "sixty_four_characters_shared_by_two_labels_that_differ_after_it_a",
+    "p255_oooooooooooooooooooooooooooooooooooooooooooooooooooooooooooooooooooooooooooooooooooooooooooooooooooooooooooooooooooooooooooooooooooooooooooooooooooooooooooooooooooooooooooooooooooooooooooooooooooooooooooooooooooooooooooooooooooooooooooooooooooooooooooox",
+    "sixteen_char_pre1",
+    "xin", "xhalt", "2", "40",
+    "sixty_four_characters_shared_by_two_labels_that_differ_after_it_b",
+    "p255_oooooooooooooooooooooooooooooooooooooooooooooooooooooooooooooooooooooooooooooooooooooooooooooooooooooooooooooooooooooooooooooooooooooooooooooooooooooooooooooooooooooooooooooooooooooooooooooooooooooooooooooooooooooooooooooooooooooooooooooooooooooooooooy",
+    "sixteen_char_pre2",
+    "007", "255", "1024", "R7_SAVE", "r0_", "r3_x",
 ];
 
 #[derive(Clone, Debug, Serialize, Deserialize)]
